@@ -220,16 +220,16 @@ type RollbackSpec struct {
 	// SpillAfter > 0: after that many pages have been modified the cache spills
 	// (journal synced, next segment header written, dirty pages written out).
 	// May repeat every SpillAfter pages if MultiSpill.
-	SpillAfter int    `json:"spill_after,omitempty"`
-	MultiSpill bool   `json:"multi_spill,omitempty"`
+	SpillAfter int  `json:"spill_after,omitempty"`
+	MultiSpill bool `json:"multi_spill,omitempty"`
 	// SpillBeyond > 0: the first spill also writes that many freshly allocated
 	// pages beyond NewPageN to the database file (the transaction grows the file
 	// and later frees those pages again, so the commit cuts them off).
 	SpillBeyond uint32 `json:"spill_beyond,omitempty"`
-	NRec       string `json:"nrec,omitempty"`    // "" (synced count) | "nosync" (0xFFFFFFFF, single segment)
-	Outcome    string `json:"outcome"`           // commit | rollback | lockonly
-	Mode       string `json:"mode"`              // delete | truncate | persist
-	WALHeader  bool   `json:"wal_header,omitempty"` // commit page 1 with file-format 2/2 (switch to WAL)
+	NRec        string `json:"nrec,omitempty"`       // "" (synced count) | "nosync" (0xFFFFFFFF, single segment)
+	Outcome     string `json:"outcome"`              // commit | rollback | lockonly
+	Mode        string `json:"mode"`                 // delete | truncate | persist
+	WALHeader   bool   `json:"wal_header,omitempty"` // commit page 1 with file-format 2/2 (switch to WAL)
 }
 
 // Result of a transaction step sequence.
